@@ -202,12 +202,22 @@ def cases(tier, rng):
                 continue
             out.append((r, [TIP], "correct_tip_offset",
                         {"correct_tip_offset": {"method": m}}))
+            # ... and on columns that an earlier step has already rewritten
+            # (edited columns are handed out differently from recorded ones)
+            out.append((r, [TIP, "correct_force_offset"],
+                        "correct_tip_offset",
+                        {"correct_tip_offset": {"method": m}}))
         for region in ("baseline", "approach", "all"):
             for strategy in ("shift", "drift"):
                 out.append((r, [TIP, "correct_tip_offset"],
                             "correct_force_slope",
                             {"correct_force_slope": {"region": region,
                                                      "strategy": strategy}}))
+        out.append((r, [TIP, "correct_force_offset", "correct_tip_offset"],
+                    "correct_force_slope",
+                    {"correct_force_slope": {"region": "approach",
+                                             "strategy": "drift"}}))
+        out.append((r, [TIP, "correct_force_offset"], "smooth_height", {}))
         out.append((r, [TIP], "correct_split_approach_retract", {}))
         out.append((r, [TIP, "correct_tip_offset", "correct_force_slope"],
                     "correct_split_approach_retract", {}))
